@@ -52,3 +52,5 @@ replace github.com/IrineSistiana/mosproxy => /repo
 replace github.com/IrineSistiana/connpool => ./third_party/connpool
 
 replace github.com/quic-go/quic-go => ../.build/quic-go
+
+replace github.com/maypok86/otter => ../.build/otter
